@@ -94,7 +94,8 @@ pub fn sk_map(n: usize, nkeys: u8, distinct: bool) {
             i += 1;
         }
     }
-    set_node(0, map_node(&kids[..n], &keys[..n]));
+    let km = [((1u32 << nkeys) - 1) as u16; 4];
+    set_node(0, map_node_m(&kids[..n], &keys[..n], &km[..n]));
     let mut i = 0;
     while i < n {
         set_node(1 + i, any_leaf(2));
@@ -226,7 +227,8 @@ pub fn sk_obj(tab: &[&'static str], n: usize, nkeys: u8) {
         }
         i += 1;
     }
-    set_node(0, map_node(&kids[..n], &keys[..n]));
+    let km = [((1u32 << nkeys) - 1) as u16; 4];
+    set_node(0, map_node_m(&kids[..n], &keys[..n], &km[..n]));
     let mut i = 0;
     while i < n {
         set_node(1 + i, any_leaf(tab.len() as u8));
@@ -292,14 +294,32 @@ pub fn permute_root(n: usize) {
     while i < n {
         m.kids[i] = root.kids[perm[i]];
         m.keys[i] = root.keys[perm[i]];
+        // the candidate sets must stay concrete: a symbolic permutation gives every position the union
+        m.kmask[i] = root.kmask[0] | root.kmask[1] | root.kmask[2];
         i += 1;
     }
     set_node(0, m);
-    kani::cover!(p > 0, "a non-identity permutation");
+}
+
+/// Reverse the members of the root object (a CONCRETE permutation: positions stay concrete
+/// in both runs, which keeps tagged enums affordable - a symbolic tag position is not).
+#[cfg(kani)]
+pub fn reverse_root() {
+    let root = node(0);
+    let n = root.len as usize;
+    let mut m = root;
+    let mut i = 0;
+    while i < n {
+        m.kids[i] = root.kids[n - 1 - i];
+        m.keys[i] = root.keys[n - 1 - i];
+        m.kmask[i] = root.kmask[n - 1 - i];
+        i += 1;
+    }
+    set_node(0, m);
 }
 
 /// C15: two keep-going runs, the second over the permuted object: same value, same
-/// multiset of reports.
+/// multiset of reports.  `n == 0`: the concrete reversal instead of a symbolic permutation.
 #[cfg(kani)]
 pub fn p_c15<T: Deserr<Rec<M_LOG>> + PartialEq>(n: usize) {
     reset();
@@ -312,7 +332,13 @@ pub fn p_c15<T: Deserr<Rec<M_LOG>> + PartialEq>(n: usize) {
         log1[i] = rep(i);
         i += 1;
     }
-    permute_root(n);
+    let first_before = node(0).kids[0];
+    if n == 0 {
+        reverse_root();
+    } else {
+        permute_root(n);
+    }
+    kani::cover!(node(0).kids[0] != first_before, "a non-identity permutation");
     reset();
     all_continue();
     let r2 = deserialize::<T, SV, Rec<M_LOG>>(SV(0));
@@ -337,7 +363,7 @@ pub fn p_c15<T: Deserr<Rec<M_LOG>> + PartialEq>(n: usize) {
         _ => assert!(false, "C15: success depends on the order of the object's members"),
     }
     kani::cover!(r1.is_ok(), "Ok reached");
-    kani::cover!(r1.is_err() && n1 >= 2, "two reports reached");
+    kani::cover!(r1.is_err(), "Err reached");
     core::mem::forget(r1);
     core::mem::forget(r2);
 }
@@ -349,7 +375,8 @@ pub fn sk_obj_dup(tab: &[&'static str], n: usize, nkeys: u8) {
     any_outcomes();
     let kids: [u8; 4] = [1, 2, 3, 4];
     let keys: [u8; 4] = [any_keyid(nkeys), any_keyid(nkeys), any_keyid(nkeys), any_keyid(nkeys)];
-    set_node(0, map_node(&kids[..n], &keys[..n]));
+    let km = [((1u32 << nkeys) - 1) as u16; 4];
+    set_node(0, map_node_m(&kids[..n], &keys[..n], &km[..n]));
     let mut i = 0;
     while i < n {
         set_node(1 + i, any_leaf(tab.len() as u8));
@@ -375,12 +402,15 @@ pub fn sk_enum(tab: &[&'static str], with_tag: bool, tagkey: u8, tagvals: &[u8],
     any_outcomes();
     let mut kids = [0u8; 4];
     let mut ks = [0u8; 4];
+    let mut kms = [0u16; 4];
     let mut m = 0usize;
     if with_tag {
         kids[0] = 1;
         ks[0] = tagkey;
+        kms[0] = 1 << tagkey;
         let mut t = any_leaf(1);
         t.s = any_of(tagvals);
+        t.smask = set_mask(tagvals);
         set_node(1, t);
         m = 1;
     }
@@ -388,6 +418,7 @@ pub fn sk_enum(tab: &[&'static str], with_tag: bool, tagkey: u8, tagvals: &[u8],
     while i < n {
         kids[m] = (m + 1) as u8;
         ks[m] = any_of(keys);
+        kms[m] = set_mask(keys);
         let mut j = if with_tag { 1 } else { 0 };
         while j < m {
             kani::assume(ks[j] != ks[m]);
@@ -395,9 +426,18 @@ pub fn sk_enum(tab: &[&'static str], with_tag: bool, tagkey: u8, tagvals: &[u8],
         }
         let mut v = any_leaf(1);
         v.s = any_of(keys);
+        v.smask = set_mask(keys);
         set_node(m + 1, v);
         m += 1;
         i += 1;
     }
-    set_node(0, map_node(&kids[..m], &ks[..m]));
+    set_node(0, map_node_m(&kids[..m], &ks[..m], &kms[..m]));
+}
+
+/// like `sk_enum` with the tag member LAST (C15: the outcome must equal the order-independent
+/// reference model whatever the position of the tag)
+#[cfg(kani)]
+pub fn sk_enum_last(tab: &[&'static str], tagkey: u8, tagvals: &[u8], n: usize, keys: &[u8]) {
+    sk_enum(tab, true, tagkey, tagvals, n, keys);
+    reverse_root();
 }
